@@ -94,7 +94,7 @@ type poolRig struct {
 	cleanup  bool
 	finishCh chan struct{}
 	sels     []selRec
-	dirMask  int // directed sweep: bit i set = backend i available
+	dirMask  int              // directed sweep: bit i set = backend i available
 	rrCount  map[string][]int // round robin: counts per availability vector window
 	rrVec    string
 	flips    int
